@@ -25,12 +25,21 @@ import (
 func main() {
 	n := flag.Int("goroutines", 16, "goroutines per area")
 	iters := flag.Int("iters", 200, "iterations per goroutine")
+	codec := flag.Int("codec", 0, "codec matrix: exchanges per goroutine (codecs.go)")
+	gobIn := flag.String("gob", "", "encode the bodies listed in this file with gob and exit (codecs.go)")
 	flag.Parse()
 	w, err := vio.NewWriter()
 	if err != nil {
 		vio.Die("%v", err)
 	}
 	defer w.Close()
+	if *gobIn != "" {
+		gobBodies(*gobIn, w)
+		return
+	}
+	if *codec > 0 {
+		codecMatrix(w, *n, *codec)
+	}
 
 	run := func(area string, f func(g, i int) bool) {
 		var wg sync.WaitGroup
